@@ -112,7 +112,7 @@ def info(tier):
         "each fault point is one injected solve on a fresh problem followed by two unarmed re-solves compared with an "
         "undisturbed baseline; distinct = distinct fault points" % len(PROBLEMS),
         "required_cells": [f"problem:{p}" for p in PROBLEMS] + [f"fault:{k}" for k in CALLBACK_KINDS + BUILD_KINDS]
-        + [f"exc:{e}" for e in EXC] + ["fault:solver-entry", "fault:linprog-entry", "fault:retry", "fault:recursion-limit-body", "fault:inside-compiled-callable", "fault:inside-analysis-or-problem-method",
+        + [f"exc:{e}" for e in EXC] + ["fault:solver-entry", "fault:linprog-entry", "fault:solver-entry+other-kwargs", "fault:linprog-entry+other-kwargs", "fault:retry", "fault:recursion-limit-body", "fault:inside-compiled-callable", "fault:inside-analysis-or-problem-method",
                                        "recursion-limit-prior:as-is", "recursion-limit-prior:application-set", "recursion-limit-prior:nested",
                                        "outcome:failed-returned", "outcome:propagated", "state:checked", "resolve:checked"],
         "assumptions": ["sys.monitoring PY_START failpoints raise inside the entered callback frame (verified by the fired counter)",
@@ -159,17 +159,20 @@ def same_result(a, b):
     return set(a["values"]) == set(b["values"]) and all(abs(a["values"][k] - b["values"][k]) <= 1e-7 * (1 + abs(b["values"][k])) for k in a["values"])
 
 
-def inject(rec, pname, baseline, label, cell, exc_name, arm, disarm, expect_fire=True):
-    """One fault point: fresh problem, armed solve, state check, two unarmed re-solves."""
-    rec.case({"p": pname, "f": label, "e": exc_name})
+def inject(rec, pname, baseline, label, cell, exc_name, arm, disarm, expect_fire=True, armed_kw=None):
+    """One fault point: fresh problem, armed solve, state check, two unarmed re-solves.
+    armed_kw: extra keyword arguments given to the failing attempt only (the re-solves are plain: nothing of the failed attempt may stick)."""
+    rec.case({"p": pname, "f": label, "e": exc_name, "kw": sorted(armed_kw or {})})
     P, method, kw = build(pname)
+    if armed_kw:
+        cell = cell + "+other-kwargs"
     w = {"problem": pname, "method": method, "fault": label, "exception": exc_name, "show": {"problem": pname, "fault": label, "exception": exc_name}}
     before = snapshot()
     outcome = None
     arm()
     try:
         try:
-            s = P.solve(method=method, **kw)
+            s = P.solve(method=method, **{**kw, **(armed_kw or {})})
             outcome = ("returned", s.status.value, s.message[:80])
         except BaseException as ex:  # noqa: BLE001 - every exception class is an outcome here
             outcome = ("propagated", type(ex).__name__, str(ex)[:80])
@@ -314,6 +317,10 @@ def run(ctx, rec):
                         continue
                     inject(rec, pname, baseline, f"solver-entry-after-{j}-evaluations", "fault:linprog-entry" if is_lp else "fault:solver-entry",
                            exc_name, arm, disarm)
+                    # the failing attempt made with other keyword arguments than the later plain solves
+                    other = {"options": {"maxiter": 0}} if is_lp else ({"tol": 1e-2, "maxiter": 2} if j == 0 else {"maxiter": 1})
+                    inject(rec, pname, baseline, f"solver-entry-after-{j}-evaluations", "fault:linprog-entry" if is_lp else "fault:solver-entry",
+                           exc_name, arm, disarm, armed_kw=other)
         # (3) fault during the SLSQP -> trust-constr retry solve
         pname = "slsqp-constrained"
         P, method, kw = build(pname)
